@@ -37,6 +37,23 @@ var c07Text = []string{
 	`1 /* x`, `1 /*/`, `nul`, `tru`, `fals`, `nana`, `1a`, `1.0a`, `2000-01-01a`, `truefalse`, `null.intx`, `true[`,
 }
 
+// escapes at their boundary values (valid and invalid alike: the reference parser judges each)
+var c07Escapes = func() []string {
+	out := []string{`\x`, `\x4`, `\xg1`, `\x4g`, `\u`, `\u004`, `\u00g1`, `\U`, `\U0000004`, `\U0000004g`, `\`, `\q`, `\8`, `\X41`, `\ `}
+	for _, v := range []string{"00", "0a", "41", "7f", "80", "e9", "ff", "FF"} {
+		out = append(out, `\x`+v)
+	}
+	for _, v := range []string{"0000", "0041", "00e9", "d7ff", "d800", "dbff", "dc00", "dfff", "e000", "fffe", "ffff", "D83D\\uDE00", "d83d\\u0041", "dc00\\ud83d"} {
+		out = append(out, `\u`+v)
+	}
+	for _, v := range []string{"00000000", "00000041", "0000d800", "0000dfff", "0001f600", "0010ffff", "00110000", "0fffffff", "7fffffff", "80000000", "80000041", "8000004a", "90000041", "fffffffe", "ffffffff", "FFFFFFFF"} {
+		out = append(out, `\U`+v)
+	}
+	return out
+}()
+
+var c07EscapeContexts = []string{`"@"`, `'@'`, `'''@'''`, `{{"@"}}`, `{{'''@'''}}`, `{'@':1}`, `{"@":1}`, `'@'::1`, `["a@b", 2]`, `('a@')`}
+
 // hand-written catalogue (binary bodies after the version marker)
 var c07Binary = [][]byte{
 	{0x12}, {0x13}, {0x1E, 0x80}, {0x30}, {0x31, 0x00}, {0x32, 0x00, 0x00}, {0x41, 0x00}, {0x42, 0x00, 0x00}, {0x43, 0, 0, 0}, {0x45, 0, 0, 0, 0, 0}, {0x49, 0, 0, 0, 0, 0, 0, 0, 0, 0},
@@ -122,7 +139,12 @@ func c07Body(c *mc.Ctx) {
 	var data []byte
 	var what string
 	binary := false
-	switch c.Pick("source", 4) {
+	switch c.Pick("source", 5) {
+	case 4: // every escape form at its boundary values in every context that takes escapes
+		e := c07Escapes[c.Shard("escape", len(c07Escapes))]
+		ctx := c07EscapeContexts[c.Pick("context", len(c07EscapeContexts))]
+		data = []byte(strings.Replace(ctx, "@", e, 1))
+		what = "escape"
 	case 0: // hand catalogue, text
 		i := c.Shard("text-case", len(c07Text))
 		data = []byte(c07Text[i])
